@@ -385,8 +385,16 @@ def closed_writer_set(ctx, f, roles):
     bad = sorted({k for k in makers if f.bodies[k].j.get("impl_self") != ity})
     ctx.check(not bad and makers, "constructed-only-by-itself",
               "the inner position state is constructed outside its own impl: %s" % bad, sample={"constructors": sorted(set(makers))})
+    import re as _re
+    own_module = ity.rsplit("::", 1)[0].split("::", 1)[-1]          # e.g. board::zobrist
     for k, fn in f.fns.items():
         if k.startswith(ity + "::") and "&mut" in fn["output"]:
+            # a helper private to the module that defines the state (only the writers themselves can call it) may
+            # select a slot by reference; anything visible further out may not
+            m_ = _re.match(r"Restricted\(DefId\([^~]*~ [^:]*::(.*)\)\)$", fn.get("vis", ""))
+            if m_ and m_.group(1) == own_module:
+                ctx.ok("private-slot-selector:%s" % short(k), {"helper": short(k), "visible in": own_module})
+                continue
             ctx.fail("hands-out-mut:%s" % short(k), "%s returns a mutable reference into the position state" % k)
     # empty(): zero hash, nothing on the board
     for k in set(makers):
